@@ -311,6 +311,14 @@ Theorem C13_xform_icc_bytes_sufficient_when : forall x k room, valid_setup x -> 
 Proof. exact xform_icc_bytes_sufficient_when. Qed.
 Print Assumptions C13_xform_icc_bytes_sufficient_when.
 
+(* counting 18 bytes per chunk covers every byte of ICC markers; the tree does so once gen_chunk_overhead = 18
+   (fix of xform-icc-undersized:chunk-overhead): the hypotheses are generated facts *)
+Theorem C13_xform_icc_bytes_sufficient_with_overhead : gen_chunk_overhead = icc_chunk_overhead -> gen_inst_chunk = icc_max_data' ->
+  forall x k, valid_setup x -> 0 <= k -> icc_bytes_written x k <= size_term_bytes x k.
+Proof. exact xform_icc_bytes_sufficient_with_overhead. Qed.
+Print Assumptions C13_xform_icc_bytes_sufficient_with_overhead.
+
+(* payload-only accounting is refuted *)
 Theorem C13_xform_icc_chunk_overhead_refuted :
   valid_setup setup_chunks /\ icc_bytes_written setup_chunks 255 = 7140 /\ marker_budget setup_chunks = 4598 /\
   marker_budget setup_chunks < icc_bytes_written setup_chunks 255.
